@@ -142,14 +142,16 @@ impl V {
             }
             1 => short.push(pools::any_string(rng)),
             2 => {
-                m.remove(names[0].as_str());
+                // any position: a lookup that has already consumed some values when it meets the missing name
+                m.remove(names[rng.usize_below(names.len())].as_str());
             }
             3 => {
                 m.insert("extra_label", "x");
             }
             _ => {
-                m.remove(names[0].as_str());
-                m.insert("wrong_name", vals[0].as_str());
+                let at = rng.usize_below(names.len());
+                m.remove(names[at].as_str());
+                m.insert("wrong_name", vals[at].as_str());
             }
         }
         macro_rules! go {
@@ -348,8 +350,14 @@ pub fn run_case(cx: &mut Ctx) {
         (V::H(x), VK::LocalHistogram) => Some(x.local()),
         _ => None,
     };
+    // the request right after a refused one goes to a child that already exists (whatever the refused
+    // lookup left behind must not send it elsewhere)
+    let mut repeat_next: Option<Vec<String>> = None;
     for digit in 0..nreq {
-        let tuple = gen_tuple(&mut rng, arity, &earlier);
+        let tuple = match repeat_next.take() {
+            Some(t) => t,
+            None => gen_tuple(&mut rng, arity, &earlier),
+        };
         earlier.push(tuple.clone());
         let form = *rng.pick(&[Form::Values, Form::TryValues, Form::Map, Form::TryMap]);
         cx.part.evaluations += 1;
@@ -442,7 +450,7 @@ pub fn run_case(cx: &mut Ctx) {
         // invalid requests return an error and create nothing
         if !is_local && rng.chance(1, 4) {
             let how = rng.below(5);
-            if how == 0 && arity == 0 {
+            if arity == 0 && how != 1 && how != 3 {
                 continue;
             }
             let r = v.bad_request(&names, &tuple, how, &mut rng);
@@ -455,6 +463,9 @@ pub fn run_case(cx: &mut Ctx) {
             if after.as_ref().ok() != Some(&model) {
                 cx.violation("invalid-request-changed-the-vector", &site, format!("malformed request (kind {}) altered the collection", how), detail());
                 return;
+            }
+            if rng.chance(2, 3) {
+                repeat_next = Some(tuple.clone());
             }
         }
     }
